@@ -249,6 +249,17 @@ func (idx *IVFIndex) Train(vectors []VectorNode) error {
 //
 // Thread-safety: Acquires exclusive lock, blocking all searches during addition
 func (idx *IVFIndex) Add(vector VectorNode) error {
+	// Re-adding a soft-deleted ID is an update (remove + add): compact first so
+	// that the stale entry and its tombstone cannot shadow the new vector.
+	idx.mu.RLock()
+	stale := idx.deletedNodes.Contains(vector.ID())
+	idx.mu.RUnlock()
+	if stale {
+		if err := idx.Flush(); err != nil {
+			return err
+		}
+	}
+
 	idx.mu.Lock()
 	defer idx.mu.Unlock()
 
